@@ -117,7 +117,7 @@ def sync_gomod():
 def build_harness():
     os.makedirs(os.path.join(WORK, "bin"), exist_ok=True)
     sync_gomod()
-    rc, so, se, dt = sh(["go", "build", "-tags", "verif", "-o", PSH, "."], cwd=HARNESS, timeout=1500)
+    rc, so, se, dt = sh(["go", "build", "-tags", "verif fast_test", "-o", PSH, "."], cwd=HARNESS, timeout=1500)
     return rc == 0, (so + se)[-6000:], dt
 
 
